@@ -31,6 +31,8 @@ RULE = ("indices: every index below the tier bound (quick 4096, thorough 262144)
         "zeros/ones and seeded random unequal lists; grids: the six 1-d constructors x model families through "
         "create_sampling_inversion_method (h from 0.05 up to 4.0, i.e. beyond the truncation range), synthetic (L,R), box grids d=2,3 "
         "(fixed-size, copula credit incl. d=3 with unequal thresholds, corner-origin boxes with axes of size 1) x every pairing; "
+        "real grids d=3,4 (fixed-size nb 3..6, asymmetric-origin unequal axes, copula credit symmetric/asymmetric) with the factory's "
+        "Rosenberg-Strong pairing drained to exhaustion; "
         "StatesManager call histories: seeded random histories with skips and max_logged resets, never-skipping and non-decreasing "
         "histories, the Lean negation witnesses; object reuse: one pairing object shared by two managers on two grid objects, "
         "drained interleaved, plus a deep copy taken half-way. "
@@ -45,10 +47,12 @@ NOT_PROVED = ["HyperbolicPairing: bijectivity N <-> N^2 (and N^d, Z^d through th
               "sympy.factorint / multiplicity agree with the trial division of the model (compared on n < 120 and selected n)",
               "PairingToZ1d.project for arbitrary call orders: false as coded - it holds in increasing order (theorem "
               "z1d_machine_increasing); z1d_order_counterexample is the negation witness (known finding C14-z1d-call-order)",
-              "StatesManager on a box with Rosenberg-Strong: exactly-once-then-exhaustion is proved under the hypothesis "
-              "that the bound exceeds every in-box index (states_manager_box); the code's bound max(frontier)+1 satisfies it "
-              "for Szudzik, Cantor, Pepis-Kalmar in every dimension >= 2 (monotone_frontier_bound) and violates it for "
-              "Rosenberg-Strong (rs_frontier_bound_counterexample, known finding C14-rs-frontier-bound)",
+              "StatesManager on a box: exactly-once-then-exhaustion is proved with the bound the code computes since /repo 94bedf1 "
+              "(max of frontier indices and Domain.max_inside_index) for EVERY pairing kind, Rosenberg-Strong included, every dimension >= 2, "
+              "any origin index and axis sizes (states_manager_box_all, code_bound_exceeds_box); the pre-fix bound max(frontier)+1 was "
+              "adequate only for the monotone pairings (monotone_frontier_bound; rs_frontier_bound_prefix_witness documents the old failure, "
+              "finding C14-rs-frontier-bound now fixed). Not proved: domains with a boundary other than Boundary() (max_inside_index then "
+              "ranges over the inside states only; the model has no boundary)",
               "the @cache of PairingToZ1d.project is modelled as a memo of the first answer per index that is never evicted "
               "(theorem z1d_memo_stable: a repeated ask returns the first answer for every history); functools itself is trusted",
               "StatesManager for arbitrary call histories: proved for every history without max_logged reset: no index twice, returned "
@@ -652,7 +656,7 @@ def sm_check(ctx, probe, inp, cls, sm, d, o, ns, model_req, first=None, after_ca
         what = "a returned state is outside the grid or is the origin"
     elif set(states) - set(returned):
         what = "exhaustion signalled before every in-grid non-origin state was returned"
-    elif any(s not in states and not (o == 0 and not any(s)) for s in after):     # origin in the corner: it is a frontier state itself
+    elif any(s not in states and not ((o == 0 or o == ns[-1] - 1) and not any(s)) for s in after):   # origin at an end of the last axis: it is a frontier state itself
         what = "the state handed back at exhaustion is not an in-grid state"
     if what:
         miss = sorted(set(states) - set(returned))
@@ -736,9 +740,8 @@ def make_box_grid(inp):
     return zoo.CTMCCredit(h=inp["h"], level_a=list(inp["a"]), model=cm, symmetric_grid=inp["sym"]), cm
 
 
-def probe_sm_box(ctx, inp):
-    """box grids d = 2, 3. pairing = explicit kind, or 'factory' (create_sampling_inversion_method chooses)"""
-    probe = "c14.sm_box"
+def probe_sm_box(ctx, inp, probe="c14.sm_box"):
+    """box grids d = 2, 3, 4. pairing = explicit kind, or 'factory' (create_sampling_inversion_method chooses)"""
     try:
         g, cm = make_box_grid(inp)
     except Exception as e:  # noqa
@@ -769,9 +772,25 @@ def probe_sm_box(ctx, inp):
         p = impl_zd(kind, d)
         sm = StatesManager(pairing=p, domain=Domain(boundary=Boundary(), grid=g, pairing=p), grid=g)
     cls = dict(pairing=kind, d=d, via=("factory" if inp["pairing"] == "factory" else "direct"))
+    if inp.get("require_rs") and kind != "rs":
+        ctx.fail("corr", probe + ".model", inp, {"name": "the factory no longer chooses Rosenberg-Strong for d >= 3", "got": kind}, cls=cls)
+        return
     ctx.count(probe, inp, branch=f"{kind}:d{d}:{inp['grid']}:{cls['via']}")
     ctx.evaluations += math.prod(ns) - 2
+    # C: the two ingredients of the bound (since 94bedf1): the frontier list (unchanged) and Domain.max_inside_index
+    ans = ctx.lean(f"smfrontier {kind} {o} {wi(ns)}").split(" ")
+    impl_mf, impl_mi = int(max(sm.frontier_states_indices)), getattr(sm.domain, "max_inside_index", None)
+    if [int(ans[0]), int(ans[1])] != [impl_mf, impl_mi if impl_mi is None else int(impl_mi)]:
+        ctx.fail("corr", probe + ".model", inp, {"name": "Drivers/C14 smfrontier vs max(frontier_states_indices) / Domain.max_inside_index",
+                                                 "impl": [impl_mf, repr(impl_mi)], "model": ans}, cls=cls)
     sm_check(ctx, probe, inp, cls, sm, d, o, ns, lambda xs: f"smbox {kind} {o} {wi(ns)} -1 {wi(xs)}", first=first)
+
+
+def probe_sm_factory_nd(ctx, inp):
+    """real grids of dimension >= 3 with the pairing create_sampling_inversion_method chooses (Rosenberg-Strong): every inside
+    non-origin state exactly once before exhaustion (false before /repo 94bedf1: theorem rs_frontier_bound_prefix_witness; true
+    of M now: states_manager_box_all).  Same checks as c14.sm_box, own probe name so that the case is counted and replayable."""
+    probe_sm_box(ctx, dict(inp, pairing="factory", require_rs=True), probe="c14.sm_factory_nd")
 
 
 def probe_sm_history(ctx, inp):
@@ -915,7 +934,7 @@ PROBES = {"c14.proj_block": probe_proj_block, "c14.pair_tuples": probe_pair_tupl
           "c14.z1d_increasing": probe_z1d_increasing, "c14.z1d_order": probe_z1d_order, "c14.z1d_stable": probe_z1d_stable,
           "c14.sm_frontier_after_exhaustion": probe_sm_frontier_after_exhaustion, "c14.lazy": probe_lazy,
           "c14.sm_1d": probe_sm_1d, "c14.sm_box": probe_sm_box, "c14.sm_history": probe_sm_history,
-          "c14.hyperbolic_nd": probe_hyperbolic_nd, "c14.sm_shared": probe_sm_shared}
+          "c14.hyperbolic_nd": probe_hyperbolic_nd, "c14.sm_shared": probe_sm_shared, "c14.sm_factory_nd": probe_sm_factory_nd}
 
 
 # ------------------------------------------------------------------------------------------- generators
@@ -1089,6 +1108,20 @@ def run(ctx):
     # dimension 3, unequal per-axis thresholds
     probe_sm_box(ctx, dict(grid="credit", margins=["hem", "merton", "hem"], copula="clayton", h=0.1, a=[-0.25, -0.3, -0.4], sym=False,
                            pairing="factory"))
+    # real grids d = 3, 4 with the factory's pairing (Rosenberg-Strong): every inside non-origin state exactly once (repaired by 94bedf1)
+    for d, nbs in ((3, [3, 4, 5, 6]), (4, [3, 4] + ([6] if ctx.thorough else []))):
+        for nb in nbs:
+            probe_sm_factory_nd(ctx, dict(grid="fixed", nb=nb, d=d))
+    for d, o, ns in ((3, 1, [3, 5, 4]), (3, 2, [4, 3, 6]), (3, 3, [5, 4, 4]), (3, 1, [2, 2, 7]), (4, 1, [3, 2, 4, 3]), (4, 2, [3, 4, 3, 5]),
+                     (3, rng.randint(1, 3), None), (3, rng.randint(1, 3), None), (4, rng.randint(1, 2), None)):
+        if ns is None:
+            ns = [o + rng.randint(2, 4) for _ in range(d)]          # origin strictly inside every axis, as on every real grid
+        probe_sm_factory_nd(ctx, dict(grid="axes", o=o, ns=ns))
+    probe_sm_factory_nd(ctx, dict(grid="credit", margins=["hem", "merton", "hem"], copula="clayton", h=0.1, a=[-0.25, -0.3, -0.4], sym=False))
+    probe_sm_factory_nd(ctx, dict(grid="credit", margins=["hem", "vg", "cgmy"], copula="independent" if "independent" in zoo.COPULAS else zoo.COPULAS[0],
+                                  h=0.05, a=[-0.3, -0.4, -0.25], sym=True))
+    if ctx.thorough:
+        probe_sm_factory_nd(ctx, dict(grid="credit", margins=["hem", "hem", "merton", "hem"], copula="clayton", h=0.1, a=[-0.25, -0.3, -0.4, -0.3], sym=False))
     # object reuse: one pairing object shared by two managers (two grid objects), and a deep copy taken half-way
     for L, R in ((2, 5), (5, 2), (1, 7), (7, 1), (4, 4), (3, 40), (rng.randint(1, 9), rng.randint(1, 9))):
         probe_sm_shared(ctx, dict(pairing="z1d", o=L, ns=[L + R + 1]))
